@@ -182,7 +182,8 @@ impl List {
   /// which it will have just allocated
   fn ensure_capacity(&mut self, needed: usize, cap: usize, hooks: &GcHooks) -> List {
     if needed > cap {
-      self.grow(cap, cap * 2, hooks)
+      // a list collected from an empty iterator has no capacity to double
+      self.grow(cap, (cap * 2).max(needed), hooks)
     } else {
       *self
     }
